@@ -55,6 +55,13 @@ def select(cases, ctx):
     for (f, role, auth, pres), g in sorted(groups.items()):
         rnd.shuffle(g)
         if not auth:
+            # near misses first: stores that grant as much as possible without authorising the request
+            # (some but not all of the required permissions, the related "other" permission, "all" held by
+            # a user who is not authenticated), the rest in seeded random order
+            def score(c):
+                req = set(p for a in c["req"] for p in a)
+                return len(req & set(c["U"])) + len(req & set(c["S"])) + ("other" in c["U"]) + ("other" in c["S"]) + ("all" in c["U"])
+            g.sort(key=lambda c: -score(c))
             out += g[:kd]
             continue
         # allowed: distinct reasons first
